@@ -205,6 +205,8 @@ impl File {
         }
 
         let mut signals = signals;
+        #[cfg(feature = "verif-hooks")]
+        let bidirectional = crate::verif_hooks::permuted_set(3, bidirectional);
         for name in bidirectional {
             let Some((sig, default)) = signals.iter_mut().find_map(|sig| match sig.typ {
                 SignalType::Input { default } if sig.name == name => Some((sig, default)),
